@@ -9,7 +9,10 @@ clauses on samples given in other representations (integer dtypes, lists, views)
 (re-used GumbelMin object, sequences of class-level / module-level calls); samples laid out as two-dimensional arrays
 (row (1, n), column (n, 1), row / column views of a table of extremes); the application-level wrappers
 `qats.app.funcs.calculate_gumbel_fit` / `calculate_stats` on containers of time series with zero, large positive and large
-negative mean level (mirror of minima / maxima, equivariance, repeated calls on one container).
+negative mean level (mirror of minima / maxima, equivariance, repeated calls on one container); the signal-level entries
+that produce a fitted Weibull distribution (`Weibull.fromsignal`, `TimeSeries.fit_weibull`, `Weibull.fit(ts.maxima())`) on
+signals with zero / slightly / strongly negative and positive mean level: equivariance under x -> a*x+b of the SIGNAL,
+equality with the fit of the sample of global maxima, moment exactness, repeated calls on the same series / array.
 """
 import contextlib
 import io
@@ -31,7 +34,11 @@ RULE = ("seeded samples (n in 8..400) drawn from Weibull / Gumbel / GumbelMin wi
         "sequences of Weibull.fit / Gumbel.fit / module calls) with the clauses evaluated after every step; two-dimensional "
         "layouts (row (1,n), column (n,1), row / column views of a 3-row / 3-column table) with flat-equality, equivariance and "
         "mirror clauses; containers of 2-12 time series (noise around a mean level of 0, +-5, +-60, +-2000 standard deviations, "
-        "optional time window) through app.funcs.calculate_gumbel_fit / calculate_stats with minima=False/True; corpus cases first; "
+        "optional time window) through app.funcs.calculate_gumbel_fit / calculate_stats with minima=False/True; signals (narrow-banded "
+        "sums of 40 cosines or smoothed noise, 1500-6000 points, mean level 0, +-0.1..3, +-60 standard deviations, float64 array / "
+        "strided view / read-only array, optional time window) through Weibull.fromsignal / TimeSeries.fit_weibull / "
+        "Weibull.fit(ts.maxima()) with methods msm, pwm (pwm2 when all global maxima are positive), shifts b that move the "
+        "mean level below / across / above zero; corpus cases first; "
         "non-trivial = every sample (all have distinct values); distinct by (distribution, parameters, n, seed)")
 
 
@@ -395,6 +402,148 @@ def eval_app(Q, inp):
     return out
 
 
+def signal_of(inp):
+    """time vector and signal of a signal-level case: a narrow-banded sum of 40 cosines with Rayleigh amplitudes and uniform
+    phases (`sig` = "cosines") or 9-point smoothed white noise ("noise"), normalised to standard deviation `sigma`, around the
+    mean level `level`*sigma"""
+    rs = np.random.RandomState(inp["seed"])
+    n, dt = inp["n"], inp["dt"]
+    t = np.arange(n) * dt
+    if inp["sig"] == "cosines":
+        w = np.zeros(n)
+        for om in np.linspace(0.5, 1.5, 40):
+            w += rs.rayleigh(0.3) * np.cos(om * (0.1 / dt) * 4.0 * t + rs.uniform(0.0, 2.0 * np.pi))
+    else:
+        w = np.convolve(rs.normal(0.0, 1.0, n + 8), np.ones(9) / 3.0, mode="valid")
+    w = (w - w.mean()) / w.std()
+    return t, inp["sigma"] * w + inp["level"] * inp["sigma"]
+
+
+def signal_repr(lab, x):
+    if lab == "strided-view":
+        buf = np.zeros(2 * x.size)
+        buf[::2] = x
+        return buf[::2]
+    if lab == "read-only":
+        y = np.array(x)
+        y.setflags(write=False)
+        return y
+    return np.array(x)
+
+
+SIGNAL_ENTRIES = ("fromsignal", "fit_weibull", "maxima+fit")
+
+
+def eval_signal(Q, inp):
+    """the entries that fit a Weibull distribution to the global maxima of a SIGNAL (`Weibull.fromsignal`,
+    `TimeSeries.fit_weibull`, `Weibull.fit(ts.maxima())`): mapping the signal by x -> a*x+b maps its global maxima the same
+    way, so location and scale transform and the shape stays (pwm2: b = 0); the fit is the fit of the sample of global
+    maxima (`find_maxima(x)`, all of them: no threshold); msm reproduces mean / standard deviation / skewness of that sample;
+    a second call on the same series / array gives the same parameters and leaves the signal untouched.
+    Returns [(oracle, expected, observed)]."""
+    from qats import TimeSeries
+    from qats.signal import find_maxima
+    W = Q["cls"]["wb"]
+    a, b = inp["a"], inp["b"]
+    twin = tuple(inp["twin"]) if inp.get("twin") else None
+    t, x0 = signal_of(inp)
+    lab = inp.get("repr", "ndarray")
+    x, y = signal_repr(lab, x0), signal_repr(lab, a * x0 + b)
+    keep_x = np.array(x)
+    ts = {"x": TimeSeries("sig", t.copy(), x), "y": TimeSeries("sig", t.copy(), y)}
+    win = {k: np.array(v.get(twin=twin)[1]) for k, v in ts.items()}         # the (windowed) signal the fit is about
+    sample = {k: np.array(find_maxima(v)[0], dtype=float) for k, v in win.items()}
+    out = []
+
+    def params(o, name):
+        p = tuple(float(v) for v in o.params)
+        return p[1:] if name == "pwm2" else p
+
+    def fit(entry, which, name):
+        with np.errstate(all="ignore"):
+            if entry == "fromsignal":
+                o = W.fromsignal(win[which] if twin else (x if which == "x" else y), method=name)
+            elif entry == "fit_weibull":
+                o = ts[which].fit_weibull(twin=twin, method=name)
+            else:
+                o = W.fit(ts[which].maxima(local=False, threshold=None, twin=twin, rettime=False), method=name)
+        return params(o, name)
+
+    for name in inp["methods"]:
+        if name == "pwm2" and (b != 0.0 or not (sample["x"].size and np.all(sample["x"] > 0))):
+            continue
+        tol = tol_of(name)
+        ref = {}
+        for k in ("x", "y"):
+            try:
+                with np.errstate(all="ignore"):
+                    ref[k] = params(W.fit(sample[k], method=name), name)
+            except Exception:
+                ref[k] = None
+        if ref["x"] is None or ref["y"] is None or not all(math.isfinite(v) for v in ref["x"] + ref["y"]):
+            continue                                   # the sample of global maxima is outside the estimator's domain
+        for entry in inp["entries"]:
+            what = {"fromsignal": "Weibull.fromsignal(x, method=%r)", "fit_weibull": "TimeSeries.fit_weibull(method=%r)",
+                    "maxima+fit": "Weibull.fit(ts.maxima(), method=%r)"}[entry] % name
+            got = {}
+            for k in ("x", "y"):
+                try:
+                    got[k] = fit(entry, k, name)
+                except Exception as e:
+                    out.append(("%s must not raise on a signal whose sample of global maxima Weibull.fit accepts (signal %s)"
+                                % (what, "x" if k == "x" else "a*x+b"), list(ref[k]), "%s: %s" % (type(e).__name__, e)))
+            if len(got) < 2:
+                continue
+            exp = transformed("wb", name, got["x"], a, b)
+            if not same_fit("wb", name, exp, got["y"], tol):
+                out.append(("%s of the signal a*x+b == (a*loc+b, a*scale, shape) of the fit of the signal x (the global maxima "
+                            "transform with the signal)" % what, list(exp), list(got["y"])))
+            for k in ("x", "y"):
+                if not same_fit("wb", name, ref[k], got[k], tol):
+                    out.append(("%s is the %s fit of the sample of ALL global maxima of the signal (find_maxima(x), no threshold); "
+                                "signal %s, %d maxima, %d of them below zero"
+                                % (what, name, "x" if k == "x" else "a*x+b", sample[k].size, int(np.sum(sample[k] < 0))),
+                                list(ref[k]), list(got[k])))
+            if name == "msm":
+                for k in ("x", "y"):
+                    m = sample[k]
+                    d = W(*got[k])
+                    m3 = float(np.mean((m - m.mean()) ** 3) / m.var() ** 1.5)
+                    if not (abs(d.mean - m.mean()) <= 1e-7 * (abs(m.mean()) + m.std()) and close(d.std, m.std(), 1e-7)
+                            and abs(d.skew - m3) < 1e-6 * max(1.0, abs(m3))):
+                        out.append(("%s reproduces mean, standard deviation and skewness of the sample of global maxima (signal %s)"
+                                    % (what, "x" if k == "x" else "a*x+b"), [float(m.mean()), float(m.std()), m3],
+                                    [float(d.mean), float(d.std), float(d.skew)]))
+            try:
+                again = fit(entry, "x", name)
+            except Exception as e:
+                again = type(e).__name__
+            if again != got["x"]:
+                out.append(("%s called again on the same series / array gives the same parameters" % what, list(got["x"]),
+                            list(again) if isinstance(again, tuple) else again))
+    if not (np.array_equal(np.asarray(x), keep_x) and np.array_equal(ts["x"].x, keep_x)):
+        out.append(("fitting leaves the signal unchanged", "x unchanged", "modified"))
+    return out
+
+
+SIGNAL_LEVELS = [-1.0, 0.0, 1.0, -0.5, 0.3, -3.0, 3.0, -60.0, 60.0, -0.1]
+
+
+def gen_signal(rng, i):
+    sigma = round(10 ** rng.uniform(-1, 2), 3)
+    level = SIGNAL_LEVELS[i % len(SIGNAL_LEVELS)]
+    a = rng.choice(A_POOL)
+    # shifts: a few standard deviations either way; one that puts the mean level one standard deviation below zero;
+    # one far above; none
+    b = [float(round(rng.uniform(-10, 10) * a * sigma, 3)), -a * sigma * (level + 1.0), float(round(100 * a * sigma)) + 1.0, 0.0][(i // 2) % 4]
+    n = rng.choice([1500, 3000, 6000])
+    dt = rng.choice([0.1, 0.2, 0.5])
+    twin = None if rng.random() < 0.6 else [round(0.15 * n * dt, 1), round(0.85 * n * dt, 1)]
+    return dict(case="signal", sig="cosines" if i % 3 != 2 else "noise", seed=rng.randint(0, 10 ** 6), n=n, dt=dt, sigma=sigma,
+                level=level, a=a, b=b, twin=twin, repr=["ndarray", "ndarray", "strided-view", "read-only"][rng.randrange(4)],
+                methods=["msm", "pwm", "pwm2"], entries=list(SIGNAL_ENTRIES))
+
+
 APP_LEVELS = [0.0, 5.0, -5.0, 60.0, -60.0, 2000.0, -2000.0, 0.0, 4.0]
 
 
@@ -705,6 +854,8 @@ def run(chk):
             judge(eval_history, c, "history.corpus")
         elif c.get("case") == "app":
             judge(eval_app, c, "app.corpus")
+        elif c.get("case") == "signal":
+            judge(eval_signal, c, "signal.corpus")
     chk.assumptions += ["two-dimensional samples: the estimators built on order statistics (pwm, pwm2, lse) sort along the last "
                         "axis, so a column (n,1) is outside their domain; a layout on which an estimator raises is outside its "
                         "domain as well (on the unchanged tree: lse and the Weibull pwm/pwm2 on every 2-D layout)"]
@@ -743,6 +894,12 @@ def run(chk):
         chk.dist("app.%s.level%+g" % (inp["wrapper"], inp["level"]))
         chk.nontriv("app:%d:%g" % (inp["seed"], inp["level"]))
         judge(eval_app, inp, "app." + inp["wrapper"])
+    # ---- signal-level entries: Weibull.fromsignal / TimeSeries.fit_weibull / Weibull.fit(ts.maxima()) --------------------------
+    for i in range(12 if chk.quick else 80):
+        inp = gen_signal(rng, i)
+        chk.dist("signal.%s.level%+g.%s" % (inp["sig"], inp["level"], "b<0" if inp["b"] < 0 else "b>0" if inp["b"] > 0 else "b=0"))
+        chk.nontriv("signal:%d:%g" % (inp["seed"], inp["level"]))
+        judge(eval_signal, inp, "signal." + inp["sig"])
     chk.sample(samples[0][2])
 
 
@@ -752,8 +909,8 @@ def replay(rp):
     from qats.stats.gumbel import Gumbel
     from qats.stats.gumbelmin import GumbelMin
     inp = rp["input"]
-    if inp.get("case") in ("container", "history", "app"):
-        res = dict(container=eval_container, history=eval_history, app=eval_app)[inp["case"]](qmods(), inp)
+    if inp.get("case") in ("container", "history", "app", "signal"):
+        res = dict(container=eval_container, history=eval_history, app=eval_app, signal=eval_signal)[inp["case"]](qmods(), inp)
         for oracle, exp, obs in res or []:
             print("FAILS: %s\n   expected %s\n   observed %s" % (oracle, exp, obs))
         print("replay: %d failing clause(s)" % len(res or []))
